@@ -103,5 +103,32 @@ func TestVerifC17Race(t *testing.T) {
 			}
 		}()
 	}
-	wg.Wait()
+	wg.Wait()	// fresh multi-level file nodes (interior dag-pb children), cold concurrent first reads
+	old := builder.DefaultLinksPerBlock
+	builder.DefaultLinksPerBlock = 4
+	defer func() { builder.DefaultLinksPerBlock = old }()
+	deep := bytes.Repeat([]byte("abcdefghijklmnopqrstuvwxyz012345"), 64)
+	dl, _, err := builder.BuildUnixFSFile(bytes.NewReader(deep), "size-32", &ls)
+	if err != nil {
+		t.Fatal(err)
+	}
+	for round := 0; round < 100; round++ {
+		dnd, _ := ls.Load(ipld.LinkContext{}, dl, dagpb.Type.PBNode)
+		dnode, err := file.NewUnixFSFile(nil, dnd, &ls)
+		if err != nil {
+			t.Fatal(err)
+		}
+		var wg sync.WaitGroup
+		for g := 0; g < 4; g++ {
+			wg.Add(1)
+			go func() {
+				defer wg.Done()
+				b, err := dnode.AsBytes()
+				if err != nil || !bytes.Equal(b, deep) {
+					t.Errorf("concurrent deep read mismatch: %v", err)
+				}
+			}()
+		}
+		wg.Wait()
+	}
 }
